@@ -93,12 +93,13 @@ Definition check_case (c : case) : N :=
                   && incl_str impl_keys (firstn impl_n impl_l) in
       verdict same spec None (Nat.ltb size (length (distinct_str (map fst (filter snd calls)))))
   | CGlobConc size threads impl_n impl_keys impl_panics impl_wrong =>
-      (* in every interleaving a Get that returns returns the requested compiled pattern *)
-      let same := Nat.eqb impl_wrong 0 in
-      let spec := Nat.leb impl_n size && Nat.leb impl_keys size && Nat.eqb impl_panics 0 && Nat.eqb impl_wrong 0 in
-      verdict same spec (if Nat.ltb 1 threads then Some 3%N else None) (Nat.ltb 1 threads)
+      (* C06_globcache_conc_inv: in every interleaving the bounds hold, no Get panics and every Get
+         returns the requested compiled pattern; no known region (F-C06-3/4 fixed by d9b7eff) *)
+      let same := Nat.eqb impl_wrong 0 && Nat.eqb impl_panics 0 && Nat.leb impl_n size && Nat.leb impl_keys size in
+      let spec := same in
+      verdict same spec None (Nat.ltb 1 threads)
   | CRRSeq ring c0 k impl impl_c =>
-      let '(tot, ts) := run rr_step_torn (repeat O (3 * k)) c0 [rr_init k] in
+      let '(tot, ts) := run rr_step_atomic (repeat O k) c0 [rr_init k] in
       let same := list_eqb Nat.eqb (map (slot_id ring) (all_seen ts)) impl && N.eqb tot impl_c in
       (* k consecutive ring positions, starting at the cursor (or, for a picker that uses the
          value the atomic add returns, at the one after it) *)
@@ -108,13 +109,15 @@ Definition check_case (c : case) : N :=
       verdict same spec None (Nat.ltb 1 (length ring) && Nat.ltb 1 k)
   | CRRConc ring c0 threads per impl_counts impl_c =>
       let n := (threads * per)%nat in
-      (* in every interleaving every pick adds one to the cursor and returns a ring member *)
-      let same := Nat.eqb (sum_nat impl_counts) n && N.eqb impl_c (N.modulo (c0 + N.of_nat n) two64) in
+      (* C06_rr_atomic_exact: in every interleaving the picks use the next n cursor values, each once;
+         no known region (F-C06-2 fixed by 633ec31) *)
+      let same0 := Nat.eqb (sum_nat impl_counts) n && N.eqb impl_c (N.modulo (c0 + N.of_nat n) two64) in
       let want c := if N.leb (c + N.of_nat n) two64 then window ring c n
                     else map (slot_id ring) (consecutive c n) in
       let exact w := all2 (fun t cnt => Nat.eqb (count_nat t w) cnt) (seq 0 (length impl_counts)) impl_counts in
-      let spec := same && (exact (want c0) || exact (want (N.modulo (c0 + 1) two64))) in
-      verdict same spec (if Nat.ltb 1 threads then Some 2%N else None) (Nat.ltb 1 threads)
+      let same := same0 && exact (want c0) in
+      let spec := same0 && (exact (want c0) || exact (want (N.modulo (c0 + 1) two64))) in
+      verdict same spec None (Nat.ltb 1 threads)
   | CLookup hosts path host cursor impl =>
       let s0 := {| lk_cursor := fun _ => cursor; lk_redirect := fun _ => None |} in
       match fst (lookup hosts path host s0) with
